@@ -42,7 +42,21 @@ ASSUMPTIONS = [
     "the code); it is compared on every run with the harness's statement-level python predicate",
     "the '#'-count fault theorems conclude 'PLACEHOLDER_INVALID reported, or the structure/reference screening "
     "already reported an error (early exit)': the placeholder check runs after the only allowed early exit",
-    "part II of Props/C08.v (fixed=false) is the record of the defects repaired by ae9929b, 8a59f35, f477d0a",
+    "part II of Props/C08.v (fixed=false) is the record of the behaviour BEFORE the fix commits ae9929b, 8a59f35, "
+    "f477d0a; /repo contains all three and the model is run in the matching mode (FIXED=1)",
+    "DECLARED DEVIATION: 'never raises' is proved for every document whose root is a JSON object; for other JSON "
+    "documents the literal clause is false of the current code, which refuses them with HedFileError since 8a59f35 "
+    "(C08_nonobject_refused states exactly that; the oracle accepts HedFileError for non-object roots only)",
+    "'never raises' covers the structure/reference plumbing only: the string-level validators are total Coq "
+    "functions (section variables), so an exception raised inside HedString/HedValidator is excluded by construction "
+    "in Coq and is caught only by the implementation-side oracle (testing)",
+    "struct_ok does not use the validator's column type detection (spec_bearing); references are find_refs, "
+    "characterised declaratively by C08_find_refs_spec; check_for_key (key HED at any depth) is its own definition; "
+    "hed_bearing / all_hed_columns in fault-theorem hypotheses are characterised by C08_hed_bearing_spec / "
+    "C08_is_hed_column_spec",
+    "the '#'-count fault theorems: for EVERY sidecar the conclusion is 'PLACEHOLDER_INVALID or early exit'; for a "
+    "sidecar obeying all other rules (struct_ok_but_hash) or whose screening is clean the early exit is proved "
+    "impossible and PLACEHOLDER_INVALID is reported (C08_fault_*_hash_wellformed / _screened)",
     "correspondence is exhaustive only over the stated small alphabets (bounded); the fault-injection stream is random",
     "V_hashes is answered with the number of '#' CHARACTERS of the rendered string (the rule of the statement), not "
     "with the implementation's helper; the position-independence of the rule is C08_fault_*_hash_anywhere",
@@ -51,9 +65,10 @@ ASSUMPTIONS = [
     "generated case is run through one of them in rotation and compared with the entry-point-agnostic model)",
 ]
 
-# 0 = the code as it exists (findings C08-F1..F3 open); set to 1 once the three repairs of the report are applied
-# as fix: commits (the model then runs with fixed=true; swap the _refuted/_partial theorems for the _fixed ones).
-FIXED = int(os.environ.get("VERIF_C08_FIXED", "1") or 0)   # the three fix: commits are in /repo
+# 1 (default) = the code as it is in /repo: it contains the fix commits ae9929b (C08-F1), 8a59f35 (C08-F2) and
+# f477d0a (C08-F3); the model runs with fixed=true.  0 = the behaviour before those commits (model fixed=false); only
+# useful for replaying the repaired defects against a checkout that predates them.
+FIXED = int(os.environ.get("VERIF_C08_FIXED", "1") or 0)
 
 _S = None
 
@@ -278,8 +293,9 @@ def col_strings(v):
     return [h] if isinstance(h, str) else list(h.values())
 
 
-def struct_ok(doc):
-    """The structural rules of the statement, written from the statement (not from the code)."""
+def struct_ok(doc, chk_hash=True):
+    """The structural rules of the statement, written from the statement (not from the code).
+    chk_hash=False: every rule except the '#' counts (Coq: struct_ok_but_hash)."""
     if not isinstance(doc, dict) or "HED" in doc:
         return False
     kinds = {k: col_kind(v) for k, v in doc.items()}
@@ -293,10 +309,10 @@ def struct_ok(doc):
                 return False
             continue
         strs = col_strings(v)
-        if kinds[k] == "value" and strs[0].count("#") != 1:
+        if chk_hash and kinds[k] == "value" and strs[0].count("#") != 1:
             return False
         if kinds[k] == "cat":
-            if "n/a" in v["HED"] or any("#" in s for s in strs):
+            if "n/a" in v["HED"] or (chk_hash and any("#" in s for s in strs)):
                 return False
         rs = []
         for s in strs:
@@ -394,7 +410,9 @@ STRUCT_ONLY_CODES = {"SIDECAR_INVALID", "sidecarUnknownColumn", "wrongHedDataTyp
 
 
 def classify_exception(doc, r):
-    """Known-finding class of a raising input, or None (= VIOLATION)."""
+    """Class of a raising input among the (repaired) defects C08-F1 ae9929b / F2 8a59f35 / F3 f477d0a, or None.
+    known_findings.json lists them under "fixed", so every raising input is a VIOLATION on the current /repo; the
+    classes only matter when an old checkout is replayed with VERIF_C08_FIXED=0."""
     stage, name = r[1], r[2]
     if not isinstance(doc, dict):
         if stage == "load" and name in ("TypeError", "ValueError"):
@@ -445,6 +463,10 @@ def oracle(case, r, res):
         # C08_fault_value_hash / C08_fault_category_hash: PLACEHOLDER_INVALID, or the screening reported an error
         res.report("fault-flagged", rep, f"'#' count rule broken by {hf} but neither PLACEHOLDER_INVALID nor a "
                                          f"structure/reference error is reported (errors {errs})")
+    if hf and struct_ok(doc, chk_hash=False) and "PLACEHOLDER_INVALID" not in errs:
+        # C08_fault_*_hash_wellformed: every other rule obeyed => no early exit, the code IS reported
+        res.report("fault-flagged", rep, f"'#' count rule broken by {hf} in an otherwise well-formed sidecar: expected "
+                                         f"PLACEHOLDER_INVALID, got errors {errs}")
     for code, why in expected_fault_codes(doc):
         if code not in errs:
             res.report("fault-flagged", rep, f"{why}: expected {code}, got errors {errs}")
@@ -812,7 +834,7 @@ def gen_malformed(rng):
 
 
 CORPUS = [
-    # refuted witnesses / known findings first
+    # witnesses of the repaired defects (C08-F1 ae9929b, F2 8a59f35, F3 f477d0a) first: they must stay repaired
     {"TaskName": "rest"}, {"a": None}, {"a": [1, 2]}, {"onset": {"HED": "{col1}"}}, [1], "x", 5, None,
     # regression cases
     {}, [], "", {"a": {}}, {"a": {"HED": "Label/#"}}, {"a": {"HED": "Red"}}, {"a": {"HED": {"x": "Red"}}},
@@ -964,10 +986,11 @@ def run(tier, seed, res, model_ok=True, proof_ok=True):
         dict_cases = [c for c in cases if isinstance(c["doc"], dict)]
         so = C.run_driver(exe, [C.to_sx(["X", "structok", jsx(c["doc"])]) for c in dict_cases])
         for c, o in zip(dict_cases, so):
-            if (o == "1") != struct_ok(c["doc"]):
+            want = [struct_ok(c["doc"]), struct_ok(c["doc"], chk_hash=False)]
+            if [x == "1" for x in o] != want:
                 res.violation("struct_ok-spec", {"json": c["text"]},
-                              f"Coq struct_ok={o} python statement-level spec={struct_ok(c['doc'])}", no_input=True)
-        structok_n = sum(1 for o in so if o == "1")
+                              f"Coq (struct_ok, struct_ok_but_hash)={o} python statement-level spec={want}", no_input=True)
+        structok_n = sum(1 for o in so if o[0] == "1")
         helper_n, _ = check_string_helpers(exe, random.Random(seed + 1), 3000 if tier == "quick" else 30000, res)
         # the generated code table as extracted equals what the implementation registers at import time
         from hed.errors.error_reporter import error_functions  # noqa
